@@ -124,7 +124,18 @@ func buildMalformedUpdate(r *simrt.Rand, pc PeerCfg, dut DUTCfg, pfx Prefix, tag
 		}
 		nb := (int(pfx.Len) + 7) / 8
 		off := len(raw) - 1 - nb
-		raw[off] = byte(33 + r.Intn(200))
+		if r.Chance(0.5) {
+			raw[off] = byte(33 + r.Intn(200))
+		} else {
+			// an NLRI that is consistent in itself: length 33..64 followed by as many address bytes
+			// as that length needs
+			l := 33 + r.Intn(32)
+			raw = append(raw[:off], byte(l))
+			for k := 0; k < (l+7)/8; k++ {
+				raw = append(raw, pfx.Addr[k%4])
+			}
+			raw[16], raw[17] = byte(len(raw)>>8), byte(len(raw))
+		}
 		m.why, m.class = "IPv4 NLRI prefix length beyond 32", "prefix_length"
 	case 7:
 		// an attribute whose declared length runs past the attribute block
@@ -775,6 +786,17 @@ func (o *c22Oracle) AfterStep(w *World, i int, s *Step) {
 			o.negHold[s.Peer] = hold
 			if time.Duration(est.HoldTimeNS) != time.Duration(hold)*time.Second {
 				w.Env.Violate("C22", "negotiated_hold_time", "peer %s: offers %d (peer) / %d (local) must negotiate %d s, FSM uses %v", p.Cfg.Name, spec.HoldTime, p.Cfg.DUTHold, hold, time.Duration(est.HoldTimeNS))
+			}
+			// RFC 7911: a direction of add-path is used only if one side advertised "send" and the other
+			// "receive" for the family (peer bits: 1 receive, 2 send)
+			for _, fam := range est.Families {
+				bits := spec.AddPath[fam.AFI]
+				wantRX := p.Cfg.AddPathRX && bits&2 != 0
+				wantTX := p.Cfg.AddPathTX > 0 && bits&1 != 0
+				if fam.AddPathRX != wantRX || fam.AddPathTX != wantTX {
+					w.Env.Violate("C22", "negotiated_add_path", "peer %s family %d: local add-path receive=%v send=%v, peer advertised %d (1 receive, 2 send): expected to receive with path ids=%v and send with path ids=%v, the session uses receive=%v send=%v",
+						p.Cfg.Name, fam.AFI, p.Cfg.AddPathRX, p.Cfg.AddPathTX > 0, bits, wantRX, wantTX, fam.AddPathRX, fam.AddPathTX)
+				}
 			}
 			return
 		}
